@@ -21,6 +21,9 @@ def gen(rng, tier):
         cs.append(Case("pwhash_str %d %d %s %s %s" % (ops, mem, hx(pwd), hx(rbytes(rng, 16)), hx(wrong)), cls="pwhash_str"))
         cs.append(Case("so_pwhash_str 2 %d %d %s %s" % (ops, mem, hx(pwd), hx(wrong)), cls="so_pwhash_str/argon2id"))
         cs.append(Case("so_pwhash_str 1 %d %d %s %s" % (ops + 2, mem, hx(pwd), hx(wrong)), cls="so_pwhash_str/argon2i"))
+    # the object API's cost presets (rendered without hashing) and its *_with_defaults forms
+    cs.append(Case("pwhash_presets", cls="pwhash_presets"))
+    cs.append(Case("pwhash_defaults %s %s" % (hx(b"correct horse"), hx(b"wrong")), cls="pwhash_defaults"))
     # object API: salt lengths 8..=64 and hash lengths 16..=128
     pairs = [(8 + i, 16 + (i * 2) % 113) for i in range(0, 57, 4 if tier == "quick" else 1)] + [(16, 32), (64, 128), (8, 16)]
     for sl, hl in pairs:
